@@ -93,7 +93,32 @@ def dag2():
     return {"bundles": bund, "exts": exts, "modules": mods, "top": "P"}
 
 
+def dag1h():
+    """dag1 with one more healthy, non-leaf module H that T instantiates *after* A and B - so that a fault below A and B
+    (in M) leaves H for last.  Used by the fault explorations only (the history explorations keep to DAGS)."""
+    d = dag1()
+    d["modules"] = dict(d["modules"])
+    H = {"name": "H", "style": "proc", "decls": [
+        ("port", "q", 2, "none"), ("sig", "hs", 1), ("binst", "hb", "B1"),
+        ("inst", "l0", ("mod", "L"), [("a", sig("hs")), ("b", sig("q"))]),
+        ("array", "la", ("mod", "L"), 2, [("a", bref("hb", "x")), ("b", bref("hb", "y"))]),
+        ("inst", "ph", ("ext", "P1", {"k": 12}), [("a", sig("hs"))]),
+    ]}
+    T = dict(d["modules"]["T"])
+    T["decls"] = list(T["decls"]) + [("inst", "hh", ("mod", "H"), [("q", sig("u"))])]
+    mods = {}
+    for k, v in d["modules"].items():
+        if k == "T":
+            mods["H"] = H
+            mods["T"] = T
+        else:
+            mods[k] = v
+    d["modules"] = mods
+    return d
+
+
 DAGS = {"dag1": dag1, "dag2": dag2}
+ALL = {"dag1": dag1, "dag2": dag2, "dag1h": dag1h}
 
 
 def with_top(design, top):
